@@ -259,6 +259,7 @@ type Aggregate struct {
 	Violations   []*Violation
 	Known        []string
 	RaceCases    int
+	fallback     []interface{}
 	mu           sync.Mutex
 }
 
@@ -274,6 +275,10 @@ func (a *Aggregate) add(r *Result, race bool) {
 	}
 	if r.Sample != nil && r.Nontrivial && len(a.Samples) < 3 {
 		a.Samples = append(a.Samples, r.Sample)
+	}
+	if r.Nontrivial && len(a.fallback) < 3 {
+		// compact description of an explored case, used if no case supplied a richer sample
+		a.fallback = append(a.fallback, map[string]interface{}{"case": r.Idx, "trace_key": r.Key, "status": r.Status, "observed": r.Stats})
 	}
 	for k, v := range r.Stats {
 		a.Stats[k] += v
